@@ -50,7 +50,24 @@ var runeGen = rapid.OneOf(
 	rapid.Just(rune(0)),
 )
 
+// longText: a string whose UTF-16 length sits at a power-of-two-ish boundary, with an
+// astral character (a surrogate pair) straddling or next to that boundary - block-wise
+// decoders break exactly there.
+func longText(t *rapid.T, l string) string {
+	n := rapid.SampledFrom([]int{255, 256, 257, 511, 512, 1023, 1024, 1025, 2047, 2048, 2049, 4095, 4096, 4097, 8192}).Draw(t, l+"_n")
+	pre := n + rapid.IntRange(-3, 2).Draw(t, l+"_off")
+	if pre < 0 {
+		pre = 0
+	}
+	fill := rapid.SampledFrom([]string{"a", "\u00e9", "\u4e16"}).Draw(t, l+"_fill")
+	tail := rapid.IntRange(0, 40).Draw(t, l+"_tail")
+	return strings.Repeat(fill, pre) + "\U0001F600" + strings.Repeat("z", tail)
+}
+
 func genText(t *rapid.T, l string) string {
+	if rapid.IntRange(0, 11).Draw(t, l+"_long") == 0 {
+		return longText(t, l)
+	}
 	rs := rapid.SliceOfN(runeGen, 0, 40).Draw(t, l)
 	s := string(rs)
 	// the two text readers strip leading/trailing NULs by contract (terminator removal);
@@ -171,8 +188,25 @@ func checkA(c CaseA) *core.Violation {
 	if !mk(buf).CanIRead(rt) {
 		return core.V("reader|CanIRead|false-on-complete", "CanIRead false although all %d declared bytes (+%d trailing) are present", declared, len(c.Trailing))
 	}
+	view := func(b []byte) *parser.Parser { // CanIRead does not modify the buffer: no copy needed
+		p := parser.NewParser(b)
+		p.SetBigEndian(!c.LE)
+		return p
+	}
 	for cut := 0; cut < declared; cut++ {
-		if mk(buf[:cut]).CanIRead(rt) {
+		if declared > 700 {
+			// long buffers: every cut within 12 bytes of a field boundary, and every 97th otherwise
+			near := cut < 12
+			for _, e := range ends {
+				if cut >= e-12 && cut <= e+12 {
+					near = true
+				}
+			}
+			if !near && cut%97 != 0 {
+				continue
+			}
+		}
+		if view(buf[:cut]).CanIRead(rt) {
 			return core.V("reader|CanIRead|true-on-truncated", "CanIRead true on a %d-byte prefix of %d declared bytes", cut, declared)
 		}
 	}
@@ -208,7 +242,7 @@ func checkA(c CaseA) *core.Violation {
 		case "str":
 			got := p.ParseString()
 			if got != f.S {
-				return core.V("reader|ParseString|wrong-value|following="+resid(after), "field %d: ParseString = %q, sent %q", i, got, f.S)
+				return core.V("reader|ParseString|wrong-value|following="+resid(after), "field %d: ParseString = %.80q, sent %.80q", i, got, f.S)
 			}
 		case "wstr":
 			got := p.ParseUTF16String()
@@ -217,7 +251,7 @@ func checkA(c CaseA) *core.Violation {
 				if hasAstral(f.S) {
 					sig += "|surrogate-pair"
 				}
-				return core.V(sig, "field %d: ParseUTF16String = %q, sent %q", i, got, f.S)
+				return core.V(sig, "field %d: ParseUTF16String = %.60q (%d bytes), sent %.60q (%d bytes); tails %q vs %q", i, got, len(got), f.S, len(f.S), tailOf(got), tailOf(f.S))
 			}
 		}
 		if want := len(buf) - ends[i]; p.Length() != want {
@@ -255,6 +289,12 @@ func classifyA(c CaseA) core.Class {
 		cl.Labels = append(cl.Labels, "kind:"+f.Kind)
 	}
 	cl.Labels = append(cl.Labels, fmt.Sprintf("trailing:%d", r))
+	for _, f := range c.Fields {
+		if len(f.S) > 200 {
+			cl.Labels = append(cl.Labels, "long-text")
+			break
+		}
+	}
 	if astral {
 		cl.Labels = append(cl.Labels, "astral")
 	}
